@@ -16,7 +16,7 @@ Definition eqb_locs := eqb_list (eqb_list eqb_loc).
 
 Definition check (c : case) : bool * bool * bool :=
   let p := c_prob c in let d := c_add c in let locs := c_locs c in
-  let ok := compiled_ok p d locs
+  let ok := (if Nat.leb 2 (p_units p) then valid_compiled p d locs else compiled_ok p d locs)
             && (if c_chain c
                 then let '(d', l') := compile_chain (p_type p) (p_units p) (map (fun r => (hd 0 r, true)) (p_rows p)) in
                      eqb_locs locs l' && eqb_nats (d_units d) (d_units d') && Nat.eqb (length (d_levels d)) (length (d_levels d'))
@@ -32,5 +32,5 @@ Definition check (c : case) : bool * bool * bool :=
 
 Definition explain (c : case) :=
   let p := c_prob c in
-  (compiled_ok p (c_add c) (c_locs c),
+  (compiled_ok p (c_add c) (c_locs c), valid_compiled p (c_add c) (c_locs c),
    map (fun q => let '(tg, t1, t2, _) := q in (oracle_query p (c_add c) (c_locs c) tg t1 t2, count_spec p tg t1 t2)) (firstn 3 (c_queries c))).
